@@ -32,7 +32,7 @@ Acq(o) == o \in {"Acquire", "AcqRel", "SeqCst"}
 Rls(o) == o \in {"Release", "AcqRel", "SeqCst"}
 
 Init == /\ l = 1 /\ clk = [t \in Threads |-> ZeroVC] /\ rel = [x \in {} |-> ZeroVC]
-        /\ mem = [x \in {} |-> 0] /\ excl = [x \in {} |-> 0] /\ pid = -1 /\ run = -1
+        /\ mem = [x \in {} |-> 0] /\ excl = [x \in {} |-> {}] /\ pid = -1 /\ run = -1
         /\ tainted = {} /\ nviol = 0 /\ cnt = [x \in {} |-> 0]
 
 RelOf(loc) == IF loc \in DOMAIN rel THEN rel[loc] ELSE ZeroVC
@@ -58,7 +58,7 @@ Step(e) ==
   IN
   CASE e.k = "reset" ->
          [clk |-> [u \in Threads |-> IF u = 99 THEN [ZeroVC EXCEPT ![99] = 1] ELSE ZeroVC],
-          rel |-> [x \in {} |-> ZeroVC], mem |-> [x \in {} |-> 0], excl |-> [x \in {} |-> 0], V |-> {}]
+          rel |-> [x \in {} |-> ZeroVC], mem |-> [x \in {} |-> 0], excl |-> [x \in {} |-> {}], V |-> {}]
     [] e.k = "spawn" ->
          [clk |-> Tick([clk EXCEPT ![e.h] = Join(@, clk[99])], 99), rel |-> rel, mem |-> mem, excl |-> excl, V |-> {}]
     [] e.k = "join" ->
@@ -118,10 +118,15 @@ Step(e) ==
              mem |-> IF known THEN [mem EXCEPT ![e.id] = AddAcc(@, Acc(t, c[t], e.loc, e.size, TRUE))] ELSE mem, excl |-> excl,
              V |-> (IF known /\ ~b.live THEN {<<"C05", "no_uaf">>, <<"C06", "no_uaf">>, <<"C03", "no_uaf">>, <<"C02", "no_uaf">>} ELSE {})
                    \cup (IF known /\ b.live /\ ~ordered THEN {<<"C06", "no_race">>, <<"C05", "reads_original_weak">>} ELSE {})]
+    \* parties (handles, by their harness id) that obtained the block exclusively without copying and
+    \* are still there: the same handle growing in place twice is one party, and a handle that was
+    \* dropped (`unexcl`) may hand the buffer on to the next sole owner
     [] e.k = "excl" ->
-         LET n == (IF e.id \in DOMAIN excl THEN excl[e.id] ELSE 0) + 1 IN
-         [clk |-> clk, rel |-> rel, mem |-> mem, excl |-> (e.id :> n) @@ excl,
-          V |-> IF n > 1 THEN {<<"C05", "one_exclusive">>} ELSE {}]
+         LET s == (IF e.id \in DOMAIN excl THEN excl[e.id] ELSE {}) \cup {e.h} IN
+         [clk |-> clk, rel |-> rel, mem |-> mem, excl |-> (e.id :> s) @@ excl,
+          V |-> IF Cardinality(s) > 1 THEN {<<"C05", "one_exclusive">>} ELSE {}]
+    [] e.k = "unexcl" ->
+         [clk |-> clk, rel |-> rel, mem |-> mem, excl |-> [b \in DOMAIN excl |-> excl[b] \ {e.h}], V |-> {}]
     [] e.k = "end" ->
          [clk |-> clk, rel |-> rel, mem |-> mem, excl |-> excl,
           V |-> IF e.size > 0 THEN {<<"C05", "freed_once">>, <<"C03", "freed_once">>} ELSE {}]
